@@ -375,7 +375,10 @@ def _output_matches(sc, res):
         got = _canon_nb(nbformat.reads(text, as_version=4))
     except Exception as e:
         return False, "output is not a well-formed notebook JSON document: %s: %s" % (type(e).__name__, str(e)[:100])
-    want = _norm_written(cap["merged"])
+    try:
+        want = _norm_written(cap["merged"])
+    except Exception as e:
+        return False, "the library result cannot be serialised by nbformat (%s) yet the command produced an output" % type(e).__name__
     if _mask_ids(got, known) != _mask_ids(want, known):
         return False, "output differs from the merged notebook the library returned"
     return True, ""
@@ -761,9 +764,16 @@ def execute_e2e(trace, scratch):
         kind = "input_determined_failure"
         want = None
     else:
-        want = _norm_written(ref["captured"]["merged"])
+        try:
+            want = _norm_written(ref["captured"]["merged"])
+        except Exception:
+            want = None     # nbformat refuses to serialise the merged notebook (cell id object): the driver crashes too
         known = _collect_ids([sc["triple"][k] for k in ("base", "local", "remote")])
-        if ref["captured"]["conflict"]:
+        if want is None:
+            kind = "crash_after_merge"
+            if ref["committed"] or ref["rc"] == 0:
+                violate("E", dict(sig0, what="committed_after_driver_crash"), "the driver cannot serialise its result but git merge succeeded")
+        elif ref["captured"]["conflict"]:
             kind = "conflicted"
             if ref["rc"] == 0 or ref["committed"] or not ref["unmerged"]:
                 violate("E", dict(sig0, what="conflict_committed"), "the driver reported conflicts but git merge rc=%s committed=%s unmerged=%s" % (ref["rc"], ref["committed"], ref["unmerged"]))
